@@ -40,7 +40,9 @@ async fn on_hook(p: Plugin<St>, v: Value) -> Result<Value, anyhow::Error> {
 }
 
 async fn on_note(p: Plugin<St>, v: Value) -> Result<(), anyhow::Error> {
-    p.state().notified.lock().unwrap().push(v);
+    p.state().notified.lock().unwrap().push(v.clone());
+    // a notification handler may fail (e.g. a payload it cannot parse): nothing may follow from that for the requests
+    if v.get("fail").is_some() { return Err(anyhow::anyhow!("notification handler error")); }
     Ok(())
 }
 
